@@ -66,7 +66,7 @@ fn parse_spec(text: &str) -> Option<Result<u64, ()>> {
 }
 
 /// S for printing: checks the printed text against the statement; returns a complaint.
-fn display_spec(n: u64, text: &str) -> Option<String> {
+pub fn display_spec(n: u64, text: &str) -> Option<String> {
   let (num, unit) = text.split_once(' ')?;
   let names = ["bytes", "KiB", "MiB", "GiB", "TiB", "PiB", "EiB"];
   let (i, singular) = if unit == "byte" { (0usize, true) } else { (names.iter().position(|u| *u == unit)?, false) };
